@@ -14,6 +14,12 @@ open IgVerif
 /-- the translator understood every `output()`/`input()` body -/
 theorem c12_extraction_ok : Gen.dbSchemaExtractionFailed = false := by decide
 
+/-- Every count that an `input()` body reads into a local and then uses as a loop bound or a
+`reserve()` size either starts from an initialiser or is followed by a look at the stream state:
+on a truncated file (the stream already failed, so `>>` stores nothing) no loop runs on an
+indeterminate count.  The list is extracted from the source on every run. -/
+theorem c12_counts_guarded : Gen.unguardedCounts = [] := by decide
+
 /-- `input()` reads exactly the fields `output()` writes, in the same order, for
 all six record kinds and the three sub-record kinds -/
 theorem c12_mirror : (mergeSchema Gen.outSchema Gen.inSchema).isSome = true := by decide
